@@ -39,6 +39,7 @@ func runC04(c *kit.Ctx) {
 	r4 := c.Rule("R4", "root id written with its edge", 1)
 	r5 := c.Rule("R5", "DSN pragmas", 3)
 	r6 := c.Rule("R6", "idempotent initialisation guards", 3)
+	r7 := c.Rule("R7", "only SQLite touches the store file and its journal", 1)
 
 	c04R1(c, m, r1)
 	checkTxTypestate(c, m, r2)
@@ -46,6 +47,127 @@ func runC04(c *kit.Ctx) {
 	c04R4(c, m, r4)
 	c04R5(c, m, r5)
 	c04R6(c, m, r6)
+	c04R7(c, m, r7)
+}
+
+// c04R7: the committed-but-not-checkpointed part of the store lives in the
+// companion files of the database file (<file>-wal, <file>-shm).  Nothing in
+// package store may remove, rename, truncate or rewrite a path derived from the
+// database file name; only the SQL driver owns those files.
+func c04R7(c *kit.Ctx, m *storeModel, r7 *kit.Rule) {
+	mutators := map[string]bool{"os.Remove": true, "os.RemoveAll": true, "os.Rename": true, "os.Truncate": true,
+		"os.WriteFile": true, "os.Create": true, "os.OpenFile": true, "io/ioutil.WriteFile": true, "os.Link": true, "os.Symlink": true}
+	// the opener and the parameter that reaches sql.Open's data source name
+	var opener *kit.Func
+	var open *ast.CallExpr
+	for _, f := range c.P.Funcs("store") {
+		for _, call := range f.AllCalls(false) {
+			if kit.CallIs(f.Info(), call, "database/sql.Open") {
+				opener, open = f.Root(), call
+			}
+		}
+	}
+	if opener == nil {
+		c.Fatalf("R7: sql.Open not found")
+	}
+	info := opener.Info()
+	// tainted objects: string parameters mentioned in the DSN expression, closed under assignment
+	tainted := map[types.Object]bool{}
+	mentions := func(e ast.Expr) bool {
+		hit := false
+		ast.Inspect(e, func(n ast.Node) bool {
+			if id, ok := n.(*ast.Ident); ok && tainted[kit.ObjOf(info, id)] {
+				hit = true
+			}
+			return true
+		})
+		return hit
+	}
+	params := map[types.Object]bool{}
+	for _, p := range opener.Params() {
+		if b, ok := p.Type().Underlying().(*types.Basic); ok && b.Kind() == types.String {
+			params[p] = true
+		}
+	}
+	// which parameters flow into the DSN: walk back from the DSN argument
+	var dsnVars func(e ast.Expr, depth int)
+	dsnVars = func(e ast.Expr, depth int) {
+		if depth > 4 {
+			return
+		}
+		ast.Inspect(e, func(n ast.Node) bool {
+			id, ok := n.(*ast.Ident)
+			if !ok {
+				return true
+			}
+			o := kit.ObjOf(info, id)
+			if params[o] {
+				tainted[o] = true
+			}
+			if v, ok := o.(*types.Var); ok && !v.IsField() && !params[o] {
+				ast.Inspect(opener.Body, func(x ast.Node) bool {
+					if as, ok := x.(*ast.AssignStmt); ok {
+						for i, l := range as.Lhs {
+							if kit.ObjOf(info, l) == o && i < len(as.Rhs) {
+								dsnVars(as.Rhs[i], depth+1)
+							}
+						}
+					}
+					return true
+				})
+			}
+			return true
+		})
+	}
+	if len(open.Args) >= 2 {
+		dsnVars(open.Args[1], 0)
+	}
+	if len(tainted) == 0 {
+		r7.Ob(opener, open, "database file name", "flows from a parameter").Undecided("cannot find the parameter that names the database file")
+		return
+	}
+	for round := 0; round < 3; round++ {
+		ast.Inspect(opener.Body, func(x ast.Node) bool {
+			if as, ok := x.(*ast.AssignStmt); ok {
+				for i, l := range as.Lhs {
+					if i < len(as.Rhs) && mentions(as.Rhs[i]) {
+						if o := kit.ObjOf(info, l); o != nil {
+							tainted[o] = true
+						}
+					}
+				}
+			}
+			return true
+		})
+	}
+	examined := 0
+	bad := ""
+	for _, f := range c.P.Funcs("store") {
+		if f.Body == nil {
+			continue
+		}
+		for _, call := range f.AllCalls(false) {
+			q := kit.QualName(kit.Callee(f.Info(), call))
+			if !mutators[q] {
+				continue
+			}
+			examined++
+			if f.Root() != opener {
+				continue
+			}
+			for _, a := range call.Args {
+				if mentions(a) {
+					bad = "`" + f.Str(call) + "` at " + f.At(call) + " modifies a file whose name is derived from the database file name"
+				}
+			}
+		}
+	}
+	o := r7.Ob(opener, open, "store file ownership", "no remove/rename/truncate/rewrite of a path derived from the database file name in package store")
+	if bad != "" {
+		o.Violation("%s: after an unclean stop the write-ahead log holds every acknowledged write since the last checkpoint; deleting or rewriting it (or the main file) loses them", bad)
+	} else {
+		o.OK("%d file-system mutators in package store, none on the database path", examined)
+	}
 }
 
 // siteOf returns the SQL site of a call.
